@@ -106,6 +106,14 @@ func c20WantOf(table string, fs []c20Field, old map[string]bool) c20Want {
 		if f.Kind == "audit" {
 			continue
 		}
+		if f.Kind == "stamp" { // C20Stamp: Serial `unique`, Batch `index`, behind the embeddedPrefix (DBName != field name)
+			pre, _ := c20TagGet(f.Tag, "embeddedPrefix")
+			added := old != nil && !old[f.Name]
+			w.Idx = append(w.Idx, c20WantIdx{Cols: []string{pre + "serial"}, Unique: true, Ordered: true, Late: added, Constr: true},
+				c20WantIdx{Cols: []string{pre + "batch"}, Ordered: true})
+			w.Cols = append(w.Cols, c20WantCol{Col: pre + "serial", Added: added, Class: "string"}, c20WantCol{Col: pre + "batch", Added: added, Class: "int"})
+			continue
+		}
 		col := colOf[f.Name]
 		added := old != nil && !old[f.Name]
 		if c20IsRel(f.Kind) {
